@@ -4,10 +4,8 @@
    Output:     OK
              | ERR <kind>|<file_id>|<line> [<kind>|<file_id>|<line> ...]     (all returned errors, first first)
              | PANIC <site> | FUEL | READFAIL <msg>
-   argv.(1) = "id"   : declaration fields / variants are visited in sorted order
-            = "set"  : additionally every rotation and the reversal of that order; prints
-                       SET <outcome>;<outcome>;...  (distinct outcomes, first error only), where
-                       outcome is OK or kind|file|line or PANIC:site or FUEL *)
+   Fuel: 3000, and 300000 when that is not enough (FUEL is printed only if 300000 is exhausted).
+   argv.(1) is ignored (kept for the calling convention). *)
 open Typesmodel
 
 let rec nat_of_int n = if n = 0 then O else S (nat_of_int (n - 1))
@@ -27,50 +25,29 @@ let kind_name = function
   | KImpurity -> "Impurity"
 
 let site_name = function
-  | PInnerDecl -> "InnerDecl" | POuterStmt -> "OuterStmt" | PIndexNotInt -> "IndexNotInt" | PBinOpNop -> "BinOpNop"
+  | POuterStmt -> "OuterStmt" | PIndexNotInt -> "IndexNotInt" | PBinOpNop -> "BinOpNop"
   | PIfNoBranch -> "IfNoBranch" | PVarIndex -> "VarIndex" | PTypeIndex -> "TypeIndex" | PFieldIndex -> "FieldIndex"
 
 let err_str (e : err) =
   Printf.sprintf "Type:%s|%d|%d" (kind_name e.e_kind) (int_of_n e.e_span.sp_file) (int_of_n e.e_span.sp_line0)
 
-let rotate k l =
-  let n = List.length l in
-  if n = 0 then l else
-  let k = k mod n in
-  let rec split i acc = function
-    | x :: xs when i > 0 -> split (i - 1) (x :: acc) xs
-    | rest -> (List.rev acc, rest) in
-  let (a, b) = split k [] l in b @ a
-
 let () =
-  let fuel = nat_of_int 100000 in
-  let mode = Sys.argv.(1) in
+  let fuel_small = nat_of_int 3000 in
+  let fuel_big = lazy (nat_of_int 300000) in
   let ic = open_in Sys.argv.(2) in
   (try
     while true do
       let line = input_line ic in
       (try
         let r = Rast_reader.read_resolved line in
-        if mode = "id" then
-          (match typecheck fuel id_orc r with
-           | Ok _ -> print_endline "OK"
-           | Err (e, more) -> print_endline ("ERR " ^ String.concat " " (List.map err_str (e :: more)))
-           | Panic p -> print_endline ("PANIC " ^ site_name p)
-           | OutOfFuel -> print_endline "FUEL")
-        else begin
-          let outs = ref [] in
-          let add o = if not (List.mem o !outs) then outs := o :: !outs in
-          let run orc =
-            add (match typecheck fuel orc r with
-                 | Ok _ -> "OK"
-                 | Err (e, _) -> err_str e
-                 | Panic p -> "PANIC:" ^ site_name p
-                 | OutOfFuel -> "FUEL") in
-          run id_orc;
-          run (fun _ l -> List.rev l);
-          for k = 1 to 7 do run (fun _ l -> rotate k l) done;
-          print_endline ("SET " ^ String.concat ";" (List.rev !outs))
-        end
+        let res = match typecheck fuel_small r with
+          | OutOfFuel -> typecheck (Lazy.force fuel_big) r      (* out of fuel is reported only for the big fuel *)
+          | x -> x in
+        (match res with
+         | Ok _ -> print_endline "OK"
+         | Err (e, more) -> print_endline ("ERR " ^ String.concat " " (List.map err_str (e :: more)))
+         | Panic p -> print_endline ("PANIC " ^ site_name p)
+         | OutOfFuel -> print_endline "FUEL")
       with Failure m -> print_endline ("READFAIL " ^ m))
     done
   with End_of_file -> ());
